@@ -52,6 +52,15 @@ func c17Work(tokens map[string]string, names []string, seedUser []byte, userTok 
 		add("%s blocking=%v issues=%d", n, vr.IsBlocking(false), len(vr.Issues))
 		add("%s string=%d", n, len(c.String()))
 		add("%s type=%s prefixes=%v", n, c.ClaimType(), c.ExpectedPrefixes())
+		// what a claims object hands out belongs to whoever asked: writing it over (with the values it holds) touches
+		// nothing another goroutine reads
+		if pfx := c.ExpectedPrefixes(); len(pfx) > 0 {
+			for i := range pfx {
+				pfx[i] = pfx[i] + 0
+			}
+			pfx[len(pfx)-1] = pfx[0]
+			add("%s prefixes again=%v", n, c.ExpectedPrefixes())
+		}
 		if g, err := jwt.DecodeGeneric(tok); err == nil {
 			add("%s generic=%d", n, len(g.Data))
 		}
@@ -80,6 +89,50 @@ func c17Work(tokens map[string]string, names []string, seedUser []byte, userTok 
 		case *jwt.UserClaims:
 			add("%s empty=%v bearer=%v", n, x.HasEmptyPermissions(), x.IsBearerToken())
 		}
+	}
+	// work whose right answer differs from worker to worker (so that a value computed for one and handed to another
+	// shows): each worker's own activation hashed, each worker's own claims encoded, again and again, against the
+	// harness's own computation of the hash identity and of the token id; an account with scopes of its own decoded
+	{
+		apub, _ := akp.PublicKey()
+		own := fmt.Sprintf("w%x", apub[len(apub)-6:])
+		act := jwt.NewActivationClaims(apub)
+		act.ImportSubject, act.ImportType = jwt.Subject("own."+own+".*"), jwt.Stream
+		act.Issuer = apub
+		wantHash := oracleHash(apub + "." + apub + "." + oracleClean("own."+own+".*"))
+		uc := jwt.NewUserClaims(c17UserPub)
+		uc.Name = "claims of " + own
+		ac := jwt.NewAccountClaims(apub)
+		for k := 0; k < 4; k++ {
+			us := jwt.NewUserScope()
+			us.Key, us.Role, us.Description = newSigner("account").pub, fmt.Sprintf("role-%s-%d", own, k), strings.Repeat(own, 40)
+			us.Template.Pub.Allow.Add("scope." + own + ".>")
+			ac.SigningKeys.AddScopedSigner(us)
+		}
+		acTok, _ := ac.Encode(akp)
+		bad := ""
+		for rep := 0; rep < 40 && bad == ""; rep++ {
+			if h, err := act.HashID(); err != nil || h != wantHash {
+				bad = fmt.Sprintf("HashID gave %q (%v), the activation's own is %q", h, err, wantHash)
+			}
+			if _, err := uc.Encode(akp); err != nil {
+				bad = "Encode failed: " + err.Error()
+			} else if id, _ := ownID(uc.ClaimsData); uc.ID != id {
+				bad = fmt.Sprintf("Encode stamped the id %q, the hash of these claims' own standard fields is %q", uc.ID, id)
+			}
+			if d, err := jwt.DecodeAccountClaims(acTok); err != nil {
+				bad = "an account token with scopes does not decode: " + err.Error()
+			} else {
+				for _, k := range ac.SigningKeys.Keys() {
+					s1, _ := ac.SigningKeys.GetScope(k)
+					s2, ok := d.SigningKeys.GetScope(k)
+					if !ok || s2 == nil || canonString(reflect.ValueOf(s1)) != canonString(reflect.ValueOf(s2)) {
+						bad = "a scope decoded from this worker's own account token is not the scope encoded"
+					}
+				}
+			}
+		}
+		add("own work: %s", bad)
 	}
 	// the only package-level variable: the credentials regular expression
 	creds, err := jwt.FormatUserConfig(userTok, seedUser)
@@ -272,7 +325,14 @@ func runC17(c *Ctx) {
 		c.violation("C17: a library call wrote into a list the caller only handed it to read (workers that share the list then write to shared memory)",
 			map[string]interface{}{"operation": "IssueUserJWT(..., tags...)", "list_before": strings.Split(tagsLent, "\x00"), "list_after": append([]string{}, c17SharedTags...)})
 	}
-	shared, _ := jwt.DecodeAccountClaims(rtok)
+	shared, sherr := jwt.DecodeAccountClaims(rtok)
+	if sherr != nil || shared == nil {
+		// (a token that decoded a moment ago: something the run so far did to objects of its own has reached shared state)
+		c.violation("C17: after one sequential pass over objects of its own, a token the library encoded no longer decodes: "+fmt.Sprint(sherr),
+			map[string]interface{}{"token": rtok, "error": fmt.Sprint(sherr)})
+		c.sum.Rule = "aborted: shared state was modified during the sequential baseline"
+		return
+	}
 	// a shared object as an application may hold it: built in memory, lists in no particular order
 	for i := 9; i >= 0; i-- {
 		shared.Exports.Add(&jwt.Export{Subject: jwt.Subject(fmt.Sprintf("zz.shared.%d", i)), Type: jwt.Stream})
